@@ -1,10 +1,13 @@
 // Harness for C11 ("Lines are broken greedily and fit their container").
 //
 // Generates paragraphs (words, nested spans with margins/borders/paddings,
-// inline-blocks, <br>, white-space runs, text-align, text-indent, line-height),
-// lays each of them out with /repo's real pipeline at a sweep of container
-// widths, and writes one case per (paragraph, width) as a Coq term of type
-// Check.C11.case.
+// inline-blocks, <br>, white-space runs, inter-element white space as text nodes
+// of its own, text-align, text-indent, font-size, line-height, overflow-wrap),
+// puts 1-4 DIFFERENT paragraphs, each at a sweep of container widths, as blocks
+// of one document (so that blocks with different line-height / font-size /
+// text-align / overflow-wrap are laid out by one Layout call), lays the document
+// out with /repo's real pipeline and writes one case per block (paragraph, width)
+// as a Coq term of type Check.C11.case.
 //
 // THE PROJECTION (this is the tie): the item list given to the model is read
 // from /repo's own box tree BEFORE layout (layout.VerifBoxTree = the
@@ -14,6 +17,10 @@
 //   - TextBox: maximal runs of U+0020 become `Space m (n*em)`, every U+000A
 //     becomes `Hard`, every other maximal run becomes `Word (n*em)` (n = number
 //     of runes; Ahem: every glyph advances 1em), m = the box's computed white-space;
+//     when the box's computed overflow-wrap is anywhere | break-word and its
+//     white-space wraps, the run becomes n single-glyph Words separated by `EB`
+//     (emergency break opportunity); an `EB` is also put between two such runs
+//     that are separated by inline-box boundaries only (after the Closes);
 //   - InlineBox: `Open (margin-left + border-left-width + padding-left)`, its
 //     children, `Close (padding-right + border-right-width + margin-right)`
 //     (computed values, all in px; <br> is an ordinary InlineBox whose
@@ -57,6 +64,7 @@ type node struct {
 	Kind  int     `json:"kind"`
 	Text  string  `json:"text,omitempty"`
 	WS    string  `json:"ws,omitempty"` // white-space override of a span ("" = inherit)
+	OW    string  `json:"ow,omitempty"` // overflow-wrap override of a span ("" = inherit)
 	Edges [6]int  `json:"edges"`        // margin-left border-left padding-left padding-right border-right margin-right
 	VPad  int     `json:"vpad,omitempty"` // vertical padding+border of a span (must not change the line height)
 	W     int     `json:"w,omitempty"`  // atomic: content box
@@ -72,6 +80,8 @@ type para struct {
 	Align   string  `json:"align"`
 	Indent  int     `json:"indent"`
 	Font    string  `json:"font"`
+	OW      string  `json:"ow,omitempty"` // overflow-wrap ("" = normal)
+	WB      string  `json:"wb,omitempty"` // word-break ("" = normal)
 	Kids    []*node `json:"kids"`
 	Comment string  `json:"comment,omitempty"`
 }
@@ -91,6 +101,9 @@ func (n *node) html(sb *strings.Builder) {
 		if n.WS != "" {
 			fmt.Fprintf(sb, ";white-space:%s", n.WS)
 		}
+		if n.OW != "" {
+			fmt.Fprintf(sb, ";overflow-wrap:%s", n.OW)
+		}
 		sb.WriteString(`">`)
 		for _, k := range n.Kids {
 			k.html(sb)
@@ -108,17 +121,39 @@ func (p *para) inner() string {
 }
 
 func (p *para) style(width int) string {
-	return fmt.Sprintf("width:%dpx;text-align:%s;text-indent:%dpx;white-space:%s", width, p.Align, p.Indent, p.WS)
+	s := fmt.Sprintf("font:%dpx/%dpx %s;width:%dpx;text-align:%s;text-indent:%dpx;white-space:%s", p.Em, p.LH, p.Font, width, p.Align, p.Indent, p.WS)
+	if p.OW != "" {
+		s += ";overflow-wrap:" + p.OW
+	}
+	if p.WB != "" {
+		s += ";word-break:" + p.WB
+	}
+	return s
+}
+
+// one block of a document: a paragraph at a container width
+type block struct {
+	p *para
+	w int
+}
+
+// the blocks of one document, in order: every block carries its own font / line-height /
+// text-align / ... so that one Layout call sees different values of them
+func document(blocks []block) string {
+	var sb strings.Builder
+	fmt.Fprintf(&sb, `<style>@font-face{src:url(file://%s/weasyprint.otf);font-family:weasyprint} @page{size:30000px 400000px;margin:0} body{margin:0} p{margin:0 0 0 7px;padding:0 0 0 3px}</style>`, render.FontDir)
+	for _, b := range blocks {
+		fmt.Fprintf(&sb, `<p style="%s">%s</p>`, b.p.style(b.w), b.p.inner())
+	}
+	return sb.String()
 }
 
 func (p *para) document(widths []int) string {
-	var sb strings.Builder
-	fmt.Fprintf(&sb, `<style>@font-face{src:url(file://%s/weasyprint.otf);font-family:weasyprint} @page{size:30000px 200000px;margin:0} body{margin:0;font:%dpx/%dpx %s} p{margin:0 0 0 7px;padding:0 0 0 3px}</style>`, render.FontDir, p.Em, p.LH, p.Font)
-	in := p.inner()
+	var bs []block
 	for _, w := range widths {
-		fmt.Fprintf(&sb, `<p style="%s">%s</p>`, p.style(w), in)
+		bs = append(bs, block{p, w})
 	}
-	return sb.String()
+	return document(bs)
 }
 
 // ---------------------------------------------------------------- generators
@@ -228,8 +263,17 @@ func genSpan(r *vlib.Rng, em, depth int, paraWS string) *node {
 		}
 		n.WS = ""
 	}
+	if r.Chance(1, 8) {
+		n.OW = vlib.Pick(r, []string{"normal", "anywhere", "break-word"})
+	}
 	n.Kids = genSeq(r, em, depth+1, r.Range(1, 3), paraWS, true)
 	return n
+}
+
+// inter-element white space: a text node holding only white space (it is a text box of
+// its own when its neighbours are elements; next to a text it merges with it)
+func genWS(r *vlib.Rng) *node {
+	return &node{Kind: kText, Text: vlib.Pick(r, []string{" ", " ", " ", "  ", "\n", " \n  "})}
 }
 
 // a sequence of inline-level nodes; inSpan: no <br> first or last
@@ -250,6 +294,27 @@ func genSeq(r *vlib.Rng, em, depth, n int, paraWS string, inSpan bool) []*node {
 			out = append(out, genText(r, r.Chance(1, 2), r.Chance(1, 2)))
 		}
 	}
+	// white space of its own at every position: before the first node, between two nodes,
+	// after the last one (not in preserving modes: every space would count)
+	if paraWS == "normal" || paraWS == "nowrap" || paraWS == "pre-line" {
+		mk := func() *node {
+			if paraWS == "pre-line" {
+				return &node{Kind: kText, Text: " "} // a newline would be a forced break
+			}
+			return genWS(r)
+		}
+		var ws []*node
+		for _, k := range out {
+			if r.Chance(1, 4) {
+				ws = append(ws, mk())
+			}
+			ws = append(ws, k)
+		}
+		if r.Chance(1, 4) {
+			ws = append(ws, mk())
+		}
+		out = ws
+	}
 	return out
 }
 
@@ -262,6 +327,9 @@ func genPara(r *vlib.Rng) *para {
 	if r.Chance(1, 3) {
 		p.Indent = vlib.Pick(r, []int{p.Em, 2 * p.Em, 7, 3 * p.Em, -p.Em, -3})
 	}
+	if r.Chance(2, 5) {
+		p.OW = vlib.Pick(r, []string{"anywhere", "break-word", "break-word"})
+	}
 	if p.WS == "pre" || p.WS == "pre-wrap" {
 		// preserved spaces at paragraph level: text only, plus atomics / spans without own mode
 		p.Kids = []*node{genModeText(r, p.WS)}
@@ -272,6 +340,46 @@ func genPara(r *vlib.Rng) *para {
 	}
 	p.Kids = genSeq(r, p.Em, 0, r.Range(1, 7), p.WS, false)
 	return p
+}
+
+// 1-4 different paragraphs for one document; most of the time they share the font size (so
+// that the same font is used with different line-heights within one Layout call)
+func genDoc(r *vlib.Rng, gen func(*vlib.Rng) *para) []*para {
+	n := vlib.Pick(r, []int{1, 2, 2, 3, 3, 4})
+	var ps []*para
+	for i := 0; i < n; i++ {
+		p := gen(r)
+		if i > 0 && r.Chance(2, 3) {
+			setEm(p, ps[0].Em)
+		}
+		ps = append(ps, p)
+	}
+	return ps
+}
+
+// changes the font size of a generated paragraph, keeping every length a multiple of
+// what it was relative to the font size
+func setEm(p *para, em int) {
+	if p.Em == em {
+		return
+	}
+	sc := func(v int) int { return v * em / p.Em }
+	var walk func(ns []*node)
+	walk = func(ns []*node) {
+		for _, n := range ns {
+			for i := range n.Edges {
+				n.Edges[i] = sc(n.Edges[i])
+			}
+			n.VPad, n.W, n.H, n.VM = sc(n.VPad), sc(n.W), sc(n.H), sc(n.VM)
+			if n.Kind == kAtomic && n.W < 1 {
+				n.W = 1
+			}
+			walk(n.Kids)
+		}
+	}
+	walk(p.Kids)
+	p.LH, p.Indent = sc(p.LH), sc(p.Indent)
+	p.Em = em
 }
 
 // boundary / malformed stream
@@ -307,10 +415,11 @@ func genBoundary(r *vlib.Rng) *para {
 // ---------------------------------------------------------------- projection (box tree -> items)
 
 type item struct {
-	Kind  byte // 'W' 'S' 'O' 'C' 'A' 'H'
+	Kind  byte // 'W' 'S' 'O' 'C' 'A' 'H' 'E'
 	mode  string
 	W, H  int
 	runes int
+	brk   bool // Word: glyph of a run that may be broken in an emergency (overflow-wrap)
 }
 
 func coqMode(ws string) string {
@@ -341,6 +450,8 @@ func (it item) coq() string {
 		return fmt.Sprintf("Close %s", vlib.Z(it.W))
 	case 'A':
 		return fmt.Sprintf("Atomic %s %s %s", coqMode(it.mode), vlib.Z(it.W), vlib.Z(it.H))
+	case 'E':
+		return "EB"
 	}
 	return "Hard"
 }
@@ -372,6 +483,15 @@ func project(b bo.Box, parentWS string, glyphW int, out *[]item) {
 	switch bx := b.(type) {
 	case *bo.TextBox:
 		ws := string(bx.Style.GetWhiteSpace())
+		ow := string(bx.Style.GetOverflowWrap())
+		if wb := string(bx.Style.GetWordBreak()); wb != "normal" {
+			panic(projErr{"word-break " + wb + " is outside the modelled set"})
+		}
+		// CSS Text 3 5.5: overflow-wrap only has an effect when white-space allows wrapping
+		brk := (ow == "anywhere" || ow == "break-word") && (ws == "normal" || ws == "pre-wrap" || ws == "pre-line") && glyphW > 0
+		if glyphW < 0 {
+			glyphW = -glyphW // (text.SplitFirstLine called with isLineStart = false: same widths, no EB)
+		}
 		t := bx.Text
 		for i := 0; i < len(t); {
 			j := i
@@ -391,7 +511,16 @@ func project(b bo.Box, parentWS string, glyphW int, out *[]item) {
 					}
 					j++
 				}
-				*out = append(*out, item{Kind: 'W', W: (j - i) * glyphW, runes: j - i})
+				if brk {
+					for k := i; k < j; k++ {
+						if k > i {
+							*out = append(*out, item{Kind: 'E'})
+						}
+						*out = append(*out, item{Kind: 'W', W: glyphW, runes: 1, brk: true})
+					}
+				} else {
+					*out = append(*out, item{Kind: 'W', W: (j - i) * glyphW, runes: j - i})
+				}
 			}
 			i = j
 		}
@@ -447,7 +576,42 @@ func projectPara(p bo.Box, glyphW int) (items []item, err string) {
 	for _, c := range ch[0].Box().Children {
 		project(c, ws, glyphW, &items)
 	}
-	return items, ""
+	return crossBoxEB(items), ""
+}
+
+// an unbreakable sequence goes on across inline-box boundaries: between two breakable
+// glyphs separated by Open/Close items only, the emergency opportunity lies after the
+// Closes (an edge sticks to its content)
+func crossBoxEB(items []item) []item {
+	after := map[int]bool{} // an EB goes after the item of that index
+	for i, it := range items {
+		if it.Kind != 'W' || !it.brk {
+			continue
+		}
+		j := i + 1
+		for j < len(items) && (items[j].Kind == 'O' || items[j].Kind == 'C') {
+			j++
+		}
+		if j == i+1 || j >= len(items) || items[j].Kind != 'W' || !items[j].brk {
+			continue
+		}
+		k := i + 1
+		for k < j && items[k].Kind == 'C' {
+			k++
+		}
+		after[k-1] = true
+	}
+	if len(after) == 0 {
+		return items
+	}
+	var res []item
+	for i, it := range items {
+		res = append(res, it)
+		if after[i] {
+			res = append(res, item{Kind: 'E', mode: "x"}) // "x": across a box boundary (tag)
+		}
+	}
+	return res
 }
 
 // ---------------------------------------------------------------- observables
@@ -460,7 +624,8 @@ type frag struct {
 
 type oline struct {
 	y, h  pr.Fl
-	w     pr.Fl
+	x, w  pr.Fl // the line box
+	brk   bool  // holds a forced break
 	frags []frag
 }
 
@@ -479,14 +644,55 @@ func collect(b bo.Box, out *[]frag) {
 	}
 }
 
+// does the line hold an inline box with a non-zero horizontal edge, or a forced break
+func hasEdgesOrBreak(l bo.Box) bool {
+	found := false
+	render.Walk(l, func(b bo.Box, d int) {
+		if d == 0 {
+			return
+		}
+		f := b.Box()
+		if bo.InlineT.IsInstance(b) && (f.MarginLeft.V() != 0 || f.MarginRight.V() != 0 || f.BorderLeftWidth.V() != 0 || f.BorderRightWidth.V() != 0 || f.PaddingLeft.V() != 0 || f.PaddingRight.V() != 0) {
+			found = true
+		}
+		if f.ElementTag() == "br" {
+			found = true
+		}
+		if t, ok := b.(*bo.TextBox); ok && strings.Contains(string(t.Text), "\n") {
+			found = true
+		}
+	})
+	return found
+}
+
+func hasBreak(l bo.Box) bool {
+	found := false
+	render.Walk(l, func(b bo.Box, d int) {
+		if b.Box().ElementTag() == "br" && d > 0 {
+			found = true
+		}
+		if t, ok := b.(*bo.TextBox); ok && strings.Contains(string(t.Text), "\n") {
+			found = true
+		}
+	})
+	return found
+}
+
 func observe(p bo.Box) []oline {
 	var out []oline
 	for _, l := range p.Box().Children {
 		if !bo.LineT.IsInstance(l) {
 			continue
 		}
-		ol := oline{y: pr.Fl(l.Box().PositionY), h: pr.Fl(l.Box().Height.V()), w: pr.Fl(l.Box().Width.V())}
+		ol := oline{y: pr.Fl(l.Box().PositionY), h: pr.Fl(l.Box().Height.V()), x: pr.Fl(l.Box().PositionX), w: pr.Fl(l.Box().Width.V())}
 		collect(l, &ol.frags)
+		ol.brk = hasBreak(l)
+		if len(ol.frags) == 0 && ol.h == 0 && ol.w == 0 && !hasEdgesOrBreak(l) {
+			// CSS 2.1 9.4.2: a line box without text, preserved white space, inline box
+			// with non-zero margin / border / padding or other in-flow content is treated
+			// as not existing
+			continue
+		}
 		out = append(out, ol)
 	}
 	return out
@@ -497,10 +703,19 @@ func symptoms(p bo.Box, ls []oline, avail pr.Fl, items []item, em int) []string 
 	var tags []string
 	// Known finding C11/trailing-space-at-limit: walk the words of the implementation's
 	// fragments along the item list.
-	var wordAt []int // index in items of the k-th Word
+	// glyphAt[k] = index in items of the Word holding the k-th non-space glyph of the
+	// paragraph; endsWord[k] = that glyph is the last one of its word (a maximal run of
+	// Word / EB items of one text)
+	var glyphAt []int
+	var endsWord []bool
 	for i, it := range items {
-		if it.Kind == 'W' {
-			wordAt = append(wordAt, i)
+		if it.Kind != 'W' {
+			continue
+		}
+		last := !(i+1 < len(items) && items[i+1].Kind == 'E' && items[i+1].mode != "x")
+		for k := 0; k < it.runes; k++ {
+			glyphAt = append(glyphAt, i)
+			endsWord = append(endsWord, last && k == it.runes-1)
 		}
 	}
 	// the text node ends with one collapsible space right after item i
@@ -508,23 +723,30 @@ func symptoms(p bo.Box, ls []oline, avail pr.Fl, items []item, em int) []string 
 		return i+1 < len(items) && items[i+1].Kind == 'S' && collapsesWS(items[i+1].mode) &&
 			(i+2 == len(items) || items[i+2].Kind != 'W')
 	}
-	words := 0
-	blank, lastJust, dropped, brAtLimit := false, false, false, false
+	glyphs := 0
+	blank, lastJust, dropped, brAtLimit, edgeOnly := false, false, false, false, false
 	prevEndsAtSpaceBeforeBr := false
 	for k, l := range ls {
 		if len(l.frags) == 0 && l.w == 0 && prevEndsAtSpaceBeforeBr {
 			blank = true // an empty line box holding only the <br>
+		}
+		if len(l.frags) == 0 && k > 0 && !l.brk {
+			edgeOnly = true // a line box holding nothing but (the end of) inline boxes
 		}
 		prevEndsAtSpaceBeforeBr = false
 		for i, f := range l.frags {
 			if f.atomic {
 				continue
 			}
-			words += len(strings.Fields(f.text))
-			if words == 0 || words > len(wordAt) || !nodeEndSpace(wordAt[words-1]) {
+			for _, c := range f.text {
+				if c != ' ' && c != '\n' {
+					glyphs++
+				}
+			}
+			if glyphs == 0 || glyphs > len(glyphAt) || !endsWord[glyphs-1] || !nodeEndSpace(glyphAt[glyphs-1]) {
 				continue
 			}
-			after := wordAt[words-1] + 2 // first item after the space
+			after := glyphAt[glyphs-1] + 2 // first item after the space
 			if i == len(l.frags)-1 {
 				j := after
 				for j < len(items) && (items[j].Kind == 'O' || items[j].Kind == 'C') {
@@ -548,6 +770,9 @@ func symptoms(p bo.Box, ls []oline, avail pr.Fl, items []item, em int) []string 
 			}
 		}
 	}
+	if edgeOnly {
+		tags = append(tags, "impl-edge-only-line")
+	}
 	if blank {
 		tags = append(tags, "impl-blank-line-before-br")
 	} else if brAtLimit {
@@ -558,6 +783,35 @@ func symptoms(p bo.Box, ls []oline, avail pr.Fl, items []item, em int) []string 
 	}
 	if dropped {
 		tags = append(tags, "impl-space-dropped-midline")
+	}
+	// a fragment of an inline box that holds no text and no atomic inline but carries the
+	// box's end edge: the end of the box has been separated from its last content
+	var hasContent func(b bo.Box) bool
+	hasContent = func(b bo.Box) bool {
+		switch bx := b.(type) {
+		case *bo.TextBox:
+			return len(bx.Text) != 0
+		case *bo.InlineBlockBox:
+			return true
+		}
+		for _, c := range b.Box().Children {
+			if hasContent(c) {
+				return true
+			}
+		}
+		return false
+	}
+	emptyFrag := false
+	render.Walk(p, func(b bo.Box, _ int) {
+		if bo.InlineT.IsInstance(b) && b.Box().ElementTag() != "br" && !hasContent(b) {
+			f := b.Box()
+			if f.MarginRight.V()+f.BorderRightWidth.V()+f.PaddingRight.V() > 0 {
+				emptyFrag = true
+			}
+		}
+	})
+	if emptyFrag {
+		tags = append(tags, "impl-empty-box-fragment")
 	}
 	// last fragment of every inline box: must carry the end edge
 	type key struct {
@@ -599,7 +853,7 @@ func coqLines(ls []oline) string {
 			}
 			fs = append(fs, fmt.Sprintf("%s %s %s", c, vlib.Q32(f.x), vlib.Q32(f.w)))
 		}
-		ss = append(ss, fmt.Sprintf("mkLine %s %s %s", vlib.Q32(l.y), vlib.Q32(l.h), vlib.List(fs)))
+		ss = append(ss, fmt.Sprintf("mkLine %s %s %s %s %s", vlib.Q32(l.y), vlib.Q32(l.h), vlib.Q32(l.x), vlib.Q32(l.w), vlib.List(fs)))
 	}
 	return vlib.List(ss)
 }
@@ -608,7 +862,7 @@ func descLines(ls []oline) []string {
 	var out []string
 	for _, l := range ls {
 		var sb strings.Builder
-		fmt.Fprintf(&sb, "y=%v h=%v w=%v:", l.y, l.h, l.w)
+		fmt.Fprintf(&sb, "y=%v h=%v x=%v w=%v:", l.y, l.h, l.x, l.w)
 		for _, f := range l.frags {
 			if f.atomic {
 				fmt.Fprintf(&sb, " [atomic x=%v w=%v]", f.x, f.w)
@@ -783,15 +1037,15 @@ func itemTags(items []item, p *para, engine string) []string {
 	return out
 }
 
-// projects the paragraph; ok=false when nothing is to be compared (a case was
-// written if the implementation failed)
-func (rn *runner) items(p *para, engine, kind string) (items []item, ok bool) {
-	return rn.itemsG(p, engine, kind, p.Em)
-}
-
-func (rn *runner) itemsG(p *para, engine, kind string, glyphW int) (items []item, ok bool) {
+// projects the paragraphs (one document holding each of them once); ok=false when nothing
+// is to be compared (a case was written if the implementation failed)
+func (rn *runner) project(ps []*para, engine, kind string, glyph func(*para) int) (all [][]item, ok bool) {
 	fc := rn.fc(engine)
-	html0 := p.document([]int{100})
+	var bs []block
+	for _, p := range ps {
+		bs = append(bs, block{p, 100})
+	}
+	html0 := document(bs)
 	doc0, err := render.ParseHTML(html0, true, nil)
 	if err != nil {
 		return nil, false
@@ -799,12 +1053,19 @@ func (rn *runner) itemsG(p *para, engine, kind string, glyphW int) (items []item
 	perr := ""
 	out := render.Guard(func() {
 		root := layout.VerifBoxTree(doc0, nil, false, fc)
-		ps := paragraphs(root)
-		if len(ps) != 1 {
+		bxs := paragraphs(root)
+		if len(bxs) != len(ps) {
 			perr = "paragraph not found in the box tree"
 			return
 		}
-		items, perr = projectPara(ps[0], glyphW)
+		for i, bx := range bxs {
+			items, e := projectPara(bx, glyph(ps[i]))
+			if e != "" {
+				perr = e
+				return
+			}
+			all = append(all, items)
+		}
 	})
 	if out.Status != "ok" {
 		rn.w.Add(vlib.Case{Kind: kind, Coq: "CBad 1", Desc: map[string]interface{}{"html": html0, "panic": out.Msg, "site": out.Site},
@@ -816,21 +1077,64 @@ func (rn *runner) itemsG(p *para, engine, kind string, glyphW int) (items []item
 		fmt.Fprintln(os.Stderr, "c11: projection skipped:", perr)
 		return nil, false
 	}
-	return items, true
+	return all, true
 }
 
-// lays the paragraph out at a sweep of widths and writes the CPara cases
-func (rn *runner) runPara(p *para, r *vlib.Rng, engine string, maxWidths int, kind string) {
-	items, ok := rn.items(p, engine, kind)
+func emOf(p *para) int { return p.Em }
+
+// a document of several different paragraphs, each at a sweep of widths
+func (rn *runner) runDoc(ps []*para, r *vlib.Rng, engine string, maxWidths int, kind string) {
+	all, ok := rn.project(ps, engine, kind, emOf)
 	if !ok {
 		return
 	}
-	rn.runParaAt(p, items, sweep(r, items, p.Em, p.Indent, maxWidths), engine, kind)
+	per := maxWidths / len(ps)
+	if per < 4 {
+		per = 4
+	}
+	var bs []block
+	var its [][]item
+	for i, p := range ps {
+		for _, w := range sweep(r, all[i], p.Em, p.Indent, per) {
+			bs = append(bs, block{p, w})
+			its = append(its, all[i])
+		}
+	}
+	// blocks of the different paragraphs in a random order
+	if len(ps) > 1 {
+		for i := len(bs) - 1; i > 0; i-- {
+			j := r.Intn(i + 1)
+			bs[i], bs[j] = bs[j], bs[i]
+			its[i], its[j] = its[j], its[i]
+		}
+	}
+	rn.runBlocks(bs, its, engine, kind)
 }
 
-func (rn *runner) runParaAt(p *para, items []item, widths []int, engine, kind string) {
+// what distinguishes the blocks of a document (tags)
+func docTags(bs []block) []string {
+	lhs, ems, fonts := map[[2]int]bool{}, map[int]bool{}, map[*para]bool{}
+	for _, b := range bs {
+		lhs[[2]int{b.p.Em, b.p.LH}] = true
+		ems[b.p.Em] = true
+		fonts[b.p] = true
+	}
+	var t []string
+	if len(fonts) > 1 {
+		t = append(t, "doc-multi-para")
+	}
+	if len(lhs) > len(ems) {
+		t = append(t, "doc-same-font-different-line-height")
+	}
+	if len(ems) > 1 {
+		t = append(t, "doc-different-font-size")
+	}
+	return t
+}
+
+func (rn *runner) runBlocks(bs []block, its [][]item, engine, kind string) {
 	fc := rn.fc(engine)
-	html := p.document(widths)
+	html := document(bs)
 	var (
 		pages []*bo.PageBox
 		err   error
@@ -838,31 +1142,38 @@ func (rn *runner) runParaAt(p *para, items []item, widths []int, engine, kind st
 	out := render.Guard(func() {
 		pages, err = render.Layout(html, nil, false, true, fc)
 	})
-	tags := itemTags(items, p, engine)
+	dtags := docTags(bs)
 	if out.Status != "ok" || err != nil || len(pages) != 1 {
-		rn.w.Add(vlib.Case{Kind: kind, Coq: "CBad 2", Desc: map[string]interface{}{"para": p, "widths": widths, "engine": engine, "html": html, "status": out.Status, "panic": out.Msg, "site": out.Site, "pages": len(pages)},
-			Tags: append(tags, "layout-failed", "site="+out.Site), Nontrivial: true})
+		rn.w.Add(vlib.Case{Kind: kind, Coq: "CBad 2", Desc: map[string]interface{}{"engine": engine, "html": html, "status": out.Status, "panic": out.Msg, "site": out.Site, "pages": len(pages)},
+			Tags: append(dtags, "engine="+engine, "layout-failed", "site="+out.Site), Nontrivial: true})
 		delete(rn.fonts, engine) // do not reuse a font configuration after a panic
 		return
 	}
 	ps := paragraphs(pages[0])
-	if len(ps) != len(widths) {
-		rn.w.Add(vlib.Case{Kind: kind, Coq: "CBad 3", Desc: map[string]interface{}{"html": html, "paragraphs": len(ps)}, Tags: tags, Nontrivial: true})
+	if len(ps) != len(bs) {
+		rn.w.Add(vlib.Case{Kind: kind, Coq: "CBad 3", Desc: map[string]interface{}{"html": html, "paragraphs": len(ps)}, Tags: append(dtags, "engine="+engine), Nontrivial: true})
 		return
 	}
-	for i, w := range widths {
+	for i, b := range bs {
+		p, w, items := b.p, b.w, its[i]
+		tags := append(itemTags(items, p, engine), dtags...)
 		bx := ps[i].Box()
 		ls := observe(ps[i])
 		cfg := fmt.Sprintf("(mkCfg %s %s %s %s %s %s %s %s)", vlib.Z(w), vlib.Z(p.Indent), vlib.Z(p.Em), vlib.Z(p.LH),
 			alignCoq(p.Align), vlib.Bool(collapsesWS(p.WS)), vlib.Q32(pr.Fl(bx.ContentBoxX())), vlib.Q32(pr.Fl(bx.ContentBoxY())))
+		desc := map[string]interface{}{
+			"engine": engine, "width": w, "p_style": p.style(w),
+			"inner_html": p.inner(), "items": coqItems(items), "impl_lines": descLines(ls),
+			"para": p, // corpus format: {"para":…, "widths":[…], "engine":…}
+		}
+		if len(dtags) > 0 {
+			// the other blocks of the document matter (state shared by one Layout call)
+			desc["block"], desc["document"] = i, html
+		}
 		rn.w.Add(vlib.Case{
-			Kind: kind,
-			Coq:  fmt.Sprintf("CPara %s %s %s", cfg, coqItems(items), coqLines(ls)),
-			Desc: map[string]interface{}{
-				"engine": engine, "width": w, "p_style": p.style(w), "font": fmt.Sprintf("%dpx/%dpx %s", p.Em, p.LH, p.Font),
-				"inner_html": p.inner(), "items": coqItems(items), "impl_lines": descLines(ls),
-				"para": p, // corpus format: {"para":…, "widths":[…], "engine":…}
-			},
+			Kind:       kind,
+			Coq:        fmt.Sprintf("CPara %s %s %s", cfg, coqItems(items), coqLines(ls)),
+			Desc:       desc,
 			Tags:       append(append(append([]string{}, tags...), fmt.Sprintf("lines=%d", min(len(ls), 4))), symptoms(ps[i], ls, pr.Fl(w), items, p.Em)...),
 			Nontrivial: len(ls) >= 2,
 		})
@@ -880,10 +1191,20 @@ func min(a, b int) int {
 // the widths the implementation reports
 func (rn *runner) runMon(p *para, r *vlib.Rng, engine string) {
 	p.Font = "weasyprint"
-	items, ok := rn.itemsG(p, engine, "mon", 0)
+	p.OW, p.WB = "", "" // (emergency breaks need the glyph advances: Ahem streams only)
+	var strip func(ns []*node)
+	strip = func(ns []*node) {
+		for _, n := range ns {
+			n.OW = ""
+			strip(n.Kids)
+		}
+	}
+	strip(p.Kids)
+	all, ok := rn.project([]*para{p}, engine, "mon", func(*para) int { return 0 })
 	if !ok {
 		return
 	}
+	items := all[0]
 	set := map[int]bool{0: true}
 	for len(set) < 10 {
 		set[r.Range(1, 40*p.Em)] = true
@@ -934,7 +1255,7 @@ func (rn *runner) runMon(p *para, r *vlib.Rng, engine string) {
 				"engine": engine, "width": w, "p_style": p.style(w), "font": fmt.Sprintf("%dpx/%dpx %s", p.Em, p.LH, p.Font),
 				"inner_html": p.inner(), "items": coqItems(items), "impl_lines": descLines(ls), "para": p,
 			},
-			Tags:       append(append([]string{}, tags...), fmt.Sprintf("lines=%d", min(len(ls), 4))),
+			Tags:       append(append(append([]string{}, tags...), fmt.Sprintf("lines=%d", min(len(ls), 4))), symptoms(ps[i], ls, pr.Fl(w), items, 0)...),
 			Nontrivial: len(ls) >= 2,
 		})
 	}
@@ -961,8 +1282,15 @@ func (rn *runner) runSplit(r *vlib.Rng, engine string) {
 		sb.WriteString(word(r, vlib.Pick(r, []int{2, 4, 9})))
 	}
 	src := sb.String()
-	doc := fmt.Sprintf(`<style>@font-face{src:url(file://%s/weasyprint.otf);font-family:weasyprint} body{font:%dpx/%dpx %s} p{white-space:%s}</style><p>%s</p>`,
-		render.FontDir, em, em, font, ws, src)
+	// overflow-wrap and the isLineStart argument: a word may only be broken when the text
+	// starts the line (Ahem only: the model needs the glyph advances)
+	ow, lineStart := "normal", true
+	if font == "Ahem" && r.Chance(1, 2) {
+		ow = vlib.Pick(r, []string{"anywhere", "break-word", "break-word"})
+		lineStart = r.Chance(1, 2)
+	}
+	doc := fmt.Sprintf(`<style>@font-face{src:url(file://%s/weasyprint.otf);font-family:weasyprint} body{font:%dpx/%dpx %s} p{white-space:%s;overflow-wrap:%s}</style><p>%s</p>`,
+		render.FontDir, em, em, font, ws, ow, src)
 	fc := rn.fc(engine)
 	h, err := render.ParseHTML(doc, true, nil)
 	if err != nil {
@@ -981,18 +1309,23 @@ func (rn *runner) runSplit(r *vlib.Rng, engine string) {
 		return
 	}
 	var items []item
-	project(tb, ws, em, &items)
+	if lineStart {
+		project(tb, ws, em, &items)
+	} else {
+		// not at the start of the line: no emergency break opportunity
+		project(tb, ws, -em, &items)
+	}
 	ctx := layout.NewVerifTextContext(fc)
 	for _, w := range sweep(r, items, em, 0, 8) {
 		var v text.FirstLine
 		out := render.Guard(func() {
-			v = text.SplitFirstLine(tb.Text, tb.Style, ctx, pr.Float(w), false, true)
+			v = text.SplitFirstLine(tb.Text, tb.Style, ctx, pr.Float(w), false, lineStart)
 		})
-		tags := []string{"engine=" + engine, "ws=" + ws, "font=" + font}
+		tags := []string{"engine=" + engine, "ws=" + ws, "font=" + font, "ow=" + ow, fmt.Sprintf("line-start=%v", lineStart)}
 		if strings.Contains(src, "\n") {
 			tags = append(tags, "has-hard")
 		}
-		desc := map[string]interface{}{"engine": engine, "text": string(tb.Text), "white-space": ws, "font": fmt.Sprintf("%dpx %s", em, font), "maxWidth": w}
+		desc := map[string]interface{}{"engine": engine, "text": string(tb.Text), "white-space": ws, "overflow-wrap": ow, "isLineStart": lineStart, "font": fmt.Sprintf("%dpx %s", em, font), "maxWidth": w}
 		if out.Status != "ok" {
 			desc["panic"], desc["site"] = out.Msg, out.Site
 			rn.w.Add(vlib.Case{Kind: "split", Coq: "CBad 4", Desc: desc, Tags: append(tags, "split-panic", "site="+out.Site), Nontrivial: true})
@@ -1027,17 +1360,74 @@ func (rn *runner) runCorpus(path string) {
 	if c.Engine == "" {
 		c.Engine = "pango"
 	}
-	items, ok := rn.items(c.Para, c.Engine, "corpus")
+	all, ok := rn.project([]*para{c.Para}, c.Engine, "corpus", emOf)
 	if !ok {
 		return
 	}
-	rn.runParaAt(c.Para, items, c.Widths, c.Engine, "corpus")
+	var bs []block
+	var its [][]item
+	for _, w := range c.Widths {
+		bs = append(bs, block{c.Para, w})
+		its = append(its, all[0])
+	}
+	rn.runBlocks(bs, its, c.Engine, "corpus")
+}
+
+func probeFile(path, engine string) {
+	b, err := os.ReadFile(path)
+	if err != nil {
+		panic(err)
+	}
+	html := strings.ReplaceAll(string(b), "FONTDIR", render.FontDir)
+	fc := render.NewFonts(engine)
+	doc0, err := render.ParseHTML(html, true, nil)
+	if err != nil {
+		panic(err)
+	}
+	root := layout.VerifBoxTree(doc0, nil, false, fc)
+	var its []string
+	for _, bx := range paragraphs(root) {
+		em := int(bx.Box().Style.GetFontSize().Value)
+		items, e := projectPara(bx, em)
+		its = append(its, coqItems(items)+" "+e)
+	}
+	pages, err := render.Layout(html, nil, false, true, fc)
+	if err != nil {
+		panic(err)
+	}
+	for i, p := range paragraphs(pages[0]) {
+		fmt.Printf("p#%d content-box x=%v y=%v w=%v\n  items %s\n", i, p.Box().ContentBoxX(), p.Box().ContentBoxY(), p.Box().Width, its[i])
+		for _, l := range p.Box().Children {
+			if !bo.LineT.IsInstance(l) {
+				continue
+			}
+			fmt.Printf("  line x=%v y=%v w=%v h=%v\n", l.Box().PositionX, l.Box().PositionY, l.Box().Width, l.Box().Height)
+			render.Walk(l, func(b bo.Box, d int) {
+				if d == 0 {
+					return
+				}
+				f := b.Box()
+				txt := ""
+				if t, ok := b.(*bo.TextBox); ok {
+					txt = fmt.Sprintf(" %q", string(t.Text))
+				}
+				fmt.Printf("  %s%s x=%v y=%v w=%v h=%v edges l=%v r=%v%s\n", strings.Repeat("  ", d), b.Type(), f.PositionX, f.PositionY, f.Width, f.Height,
+					f.MarginLeft.V()+f.BorderLeftWidth.V()+f.PaddingLeft.V(), f.MarginRight.V()+f.BorderRightWidth.V()+f.PaddingRight.V(), txt)
+			})
+		}
+	}
 }
 
 func main() {
 	out := flag.String("out", "cases.jsonl", "output file")
 	n := flag.Int("n", 3000, "number of cases")
+	probe := flag.String("probe", "", "development aid: lay out this HTML file and print, for every <p>, the projected items and the observed lines")
+	pengine := flag.String("engine", "pango", "engine of -probe")
 	flag.Parse()
+	if *probe != "" {
+		probeFile(*probe, *pengine)
+		return
+	}
 	rng := vlib.NewRng(vlib.Seed())
 	w := vlib.NewWriter(*out)
 	defer w.Close()
@@ -1059,9 +1449,9 @@ func main() {
 		}
 		switch k := r.Intn(20); {
 		case k < 13:
-			rn.runPara(genPara(r), r, engine, 16, "para")
+			rn.runDoc(genDoc(r, genPara), r, engine, 16, "para")
 		case k < 16:
-			rn.runPara(genBoundary(r), r, engine, 10, "boundary")
+			rn.runDoc(genDoc(r, genBoundary), r, engine, 12, "boundary")
 		case k < 18:
 			rn.runMon(genPara(r), r, engine)
 		default:
